@@ -131,6 +131,7 @@ def bounds(tier, seed):
         "phase": [0.0, 0.7],
         "configs": _cfgs(tier),
         "modulation": "virtual device with 8 MHz channels, with_modulation off / on, with and without reordering (pair, bent3)",
+        "run_histories": "all ordered pairs of 8 runs differing in register / SLM / DMM / cutoff / ordering / basis, executed back to back in one process",
         "ordering": "off; on with every p in S_N for N <= 4 (drive kinds dmm, local, slm, global; base config); on with the real optimiser",
     }
 
@@ -162,6 +163,24 @@ def cases(tier, seed):
                     if perm:
                         c["ordering"] = True
                     yield mk(shape, kind, "rydberg", 0.7, c, perm=perm, dev="mod")
+    # run histories (E2): run A, then run B in the same process; B is judged against its own oracle (all ordered pairs)
+    hb = {"dt": 10, "eval": [0.37, 1.0], "precision": 1e-8, "seed": seed}
+    hist = [
+        mk("pair", "global", "rydberg", 0.7, dict(hb)),
+        mk("pair", "slm", "rydberg", 0.7, dict(hb)),
+        mk("bent3", "global", "rydberg", 0.7, dict(hb)),
+        mk("bent3", "slm", "rydberg", 0.7, dict(hb)),
+        mk("bent3", "dmm", "rydberg", 0.0, dict(hb)),
+        mk("bent3", "global", "rydberg", 0.7, dict(hb, interaction_cutoff=1.0)),
+        mk("bent3", "local", "rydberg", 0.7, dict(hb, ordering=True), perm=[2, 0, 1]),
+        mk("bent3", "global", "xy", 0.7, dict(hb)),
+    ]
+    for i, a in enumerate(hist):
+        for j, b in enumerate(hist):
+            if i != j:
+                c = dict(b, after={"spec": a["spec"], "cfg": a["cfg"], "perm": a.get("perm")})
+                c["label"] = b["label"] + " after " + a["label"]
+                yield c
     # every optimiser answer
     base = {"dt": 10, "eval": [0.5, 1.0], "precision": 1e-8, "ordering": True, "seed": seed}
     for shape in ["bent3", "zig4"] if tier == "quick" else ["pair", "bent3", "tri3", "zig4", "rect4"]:
@@ -210,6 +229,15 @@ def run_case(case):
     key = json.dumps({"spec": spec, "cfg": {k: v for k, v in cfg.items() if k in ("dt", "eval", "init", "seed", "interaction_cutoff", "with_modulation")}}, sort_keys=True)
     perm = case.get("perm")
     label = f"{case['label']} cfg={cfg} optimiser_answer={perm}"
+    if case.get("after"):
+        try:
+            if case["after"].get("perm") is not None:
+                with seams.optimiser_answer(case["after"]["perm"]):
+                    runner.run_mps(case["after"]["spec"], case["after"]["cfg"])
+            else:
+                runner.run_mps(case["after"]["spec"], case["after"]["cfg"])
+        except Exception:
+            pass  # the earlier run is judged in its own case
     try:
         if perm is not None and perm != "real":
             with seams.optimiser_answer(perm) as calls:
